@@ -800,6 +800,10 @@ pub fn judge(case: &VmCase, rep: &mut Report, mon: &Monitor, pools: &mut Pools, 
                     issues.push((p, "final-pc", format!("final pc {} but the reference ends at {} (last op {last:?})", real.vm.pc, m.pc)));
                 } else if real.vm.stack[..] != m.stack[..] || real.vm.memory[..] != m.mem[..] {
                     issues.push(("C08", "final-state", format!("final stack/memory differ: VM stack tail {:?} mem {} | reference stack tail {:?}", tail(&real.vm.stack), first_diff(&real.vm.memory, &m.mem), tail(&m.stack))));
+                } else if real.vm.repeat.depth() != m.rep.len() {
+                    // ending a run (Halt, HaltIf, end of program) must leave the active loops as they are:
+                    // the machine can be inspected and continued afterwards
+                    issues.push(("C09", "final-repeat-state", format!("after the run {} loops are active on the VM, {} on the reference (last op {last:?})", real.vm.repeat.depth(), m.rep.len())));
                 }
                 // exact requests (sequence for programs without children, multiset otherwise)
                 let mut got: Vec<_> = real.reads.iter().map(|e| (e.view, e.contract.clone(), e.key.clone(), e.count)).collect();
